@@ -596,6 +596,8 @@ class Interp:
                 if c.ek in (Str, Bytes):
                     lib.flat_axioms(self, c, new, j)
                 self.store_back(t.value, new, c)
+            elif isinstance(c, VModel):
+                c.setitem(self, self.eval(t.slice), v)
             else:
                 raise Unsupported('subscript store on %r' % (c,))
         else:
@@ -648,6 +650,8 @@ class Interp:
             self.st.write_field(obj.t, attr, v)
         elif isinstance(obj, (VCons, VExc)):
             obj.attrs[attr] = v
+        elif isinstance(obj, VModel):
+            obj.setattr(self, attr, v)
         elif isinstance(obj, VNone):
             raise_(self, 'AttributeError', VStr(attr))
         else:
@@ -711,6 +715,8 @@ class Interp:
             if default is not None:
                 return default
             raise_(self, 'AttributeError', VStr("'NoneType' object has no attribute " + attr))
+        if isinstance(obj, VModel):
+            return obj.getattr(self, attr)
         if isinstance(obj, VModule):
             return self.resolve_global('%s.%s' % (obj.name, attr))
         if isinstance(obj, (VStr, VList, VSet, VBag, VDict, VCList, VTuple, VCDict, VAny, VInt, VClass, VFunc)):
@@ -1080,6 +1086,8 @@ class Interp:
                 nd2 = self.eval(n.value)
                 return lib.dict_get_slot(self, nd2, idx)[1]
             raise_(self, 'KeyError', idx)
+        if isinstance(c, VModel):
+            return c.getitem(self, idx)
         hook = self.spec.subscript_hook
         if hook:
             r = hook(self, c, idx)
@@ -1258,6 +1266,18 @@ class Interp:
                 b = BUILTINS.get(f.name)
                 if b is not None:
                     return b(self, args, kwargs)
+            b = f.bound
+            if isinstance(b, VStr):
+                return lib.str_method(self, b, f.name, args, kwargs)
+            if isinstance(b, VCDict):
+                return self.cdict_method(b, f.name, args)
+            if isinstance(b, VCList):
+                return self.clist_method(b, f.name, args, n)
+            if isinstance(b, (VDict,)) and f.name == 'get':
+                return lib.dict_method(self, b, 'get', args, kwargs)[0]
+            key = '*.' + f.name.split('.')[-1]
+            if key in self.spec.calls:
+                return self.spec.calls[key](self, b, args, kwargs)
             raise Unsupported('call of %s without contract' % f.name)
         if isinstance(f, VClass):
             return self.construct(f.name, args, kwargs)
